@@ -41,10 +41,11 @@ ASSERT = ["SIMPLE", "MUTATION_ANALYSIS", "MUTATION_ANALYSIS", "CHECKED_MINIMIZIN
 
 
 def strategy(ctx):
-    from vf.corpus import MODULES
+    from vf.corpus import EXTRA_MODULES, MODULES
 
     return st.fixed_dictionaries({
-        "module": st.sampled_from(MODULES),
+        "module": st.sampled_from(MODULES + EXTRA_MODULES + EXTRA_MODULES),
+        "in_package": st.booleans(),
         "seed": st.integers(0, 10**6),
         "strip_annotations": st.booleans(),
         "algo": st.sampled_from(ALGOS),
@@ -57,15 +58,18 @@ def strategy(ctx):
 
 def evaluate(case: dict[str, Any]) -> Outcome:
     from vf import cli
-    from vf.corpus import materialise_variant
+    from vf.corpus import materialise_package, materialise_variant
 
     out = Outcome()
     base = tempfile.mkdtemp(prefix="vf_c18_", dir=os.environ.get("VF_SCRATCH_DIR") or os.environ.get("VERIF_SCRATCH") or None)
     try:
         proj, outd = os.path.join(base, "proj"), os.path.join(base, "out")
-        materialise_variant(case["module"], proj, case.get("strip_annotations", False))
+        if case.get("in_package"):
+            module = materialise_package(case["module"], proj, strip_annotations=case.get("strip_annotations", False))
+        else:
+            module = materialise_variant(case["module"], proj, case.get("strip_annotations", False))
         extra = ["--no-xfail", str(case["no_xfail"]), "--post-process", str(case["minimize"])]
-        run = cli.run_pynguin(proj, case["module"], outd, seed=case["seed"], algorithm=case["algo"], iterations=case["iterations"],
+        run = cli.run_pynguin(proj, module, outd, seed=case["seed"], algorithm=case["algo"], iterations=case["iterations"],
                               assertion_generation=case["assertion"], extra=extra)
         out.labels += [f"algo:{case['algo']}", f"assert:{case['assertion']}", f"annotations:{'stripped' if case.get('strip_annotations') else 'kept'}"]
         if run.timed_out:
